@@ -2,7 +2,7 @@ SPECIFICATION Spec
 CONSTANTS Family = "query"
           NConcrete = 1
           Symbols = {"*"}
-          MaxPairs = 2
+          MaxPairs = 1
 INVARIANT Canonical
 INVARIANT DictFirstIsNatural
 INVARIANT DictOrderIrrelevant
